@@ -43,9 +43,9 @@ ASSUMPTIONS = [
     'ordered probit: range judged at 1e-8 (the external engine normal CDF overshoots 1 by up to 9.9e-10, calibrated; the '
     'number of cases where 1 - Phi(z) came out slightly negative is reported in monitor_counters); sums telescope exactly',
 ]
-MIN_DISTINCT = {'quick': 300, 'thorough': 4000}
+MIN_DISTINCT = {'quick': 300, 'thorough': 3000}
 CASE_TIMEOUT = 120
-N_RANDOM = {'quick': 360, 'thorough': 6000}
+N_RANDOM = {'quick': 360, 'thorough': 4000}
 
 BUILTIN = ['logit', 'nested', 'nested_mu', 'cnl', 'cnlmu']
 MEV = ['mev_zero', 'mev_nested', 'mev_cross']
@@ -183,7 +183,7 @@ def run_case(case):
                     ch = a if k % 2 else ex.Numeric(a)
                     exprs[(m, 'P', a)] = model_expr(b, m, ch, syntax)
                     exprs[(m, 'LP', a)] = model_expr(b, m, ch, syntax, log=True)
-        except (BiogemeError, TypeError, ValueError, KeyError, AttributeError) as e:
+        except Exception as e:
             broken.add(m)
             viol(f'{m}-construction-raises-{type(e).__name__}', f'building {m} on a valid structure raised {type(e).__name__}: {e}')
     incs = {}
@@ -192,7 +192,7 @@ def run_case(case):
             d, incs = b.ordered(which)
             for c, e in d.items():
                 exprs[('ordered_' + which, 'P', c)] = e
-        except (BiogemeError, TypeError, ValueError, KeyError) as e:
+        except Exception as e:
             broken.add('ordered_' + which)
             viol(f'ordered_{which}-construction-raises-{type(e).__name__}', str(e))
     over = {k: v for k, v in incs.items() if v != 1.0}
@@ -225,9 +225,9 @@ def run_case(case):
                                                        prepare_ids=True), dtype=float)
                 except RuntimeError as e2:
                     raise EngineError(f'{k[0]}: {e2}')
-                except BiogemeError as e2:
+                except Exception as e2:  # anything the library raises on a valid model is a refutation, not a harness error
                     broken.add(k[0])
-                    viol(f'{k[0]}-evaluation-raises-BiogemeError', f'{k}: {e2}')
+                    viol(f'{k[0]}-evaluation-raises-{type(e2).__name__}', f'{k}: {e2}')
     except EngineError as e:
         m = str(e).split(':')[0]
         viol(f'{m}-evaluation-raises-engine-error', str(e)[:600])
@@ -235,8 +235,8 @@ def run_case(case):
     except RuntimeError as e:
         viol('simulate-raises-engine-error', str(e)[:600])
         return rec.out()
-    except BiogemeError as e:
-        viol('simulate-raises-BiogemeError', str(e)[:600])
+    except Exception as e:
+        viol(f'simulate-raises-{type(e).__name__}', str(e)[:600])
         return rec.out()
 
     # ---- judge ---------------------------------------------------------------------
@@ -330,7 +330,7 @@ def _python_path(rec, cfg, syntax, viol):
         except NotImplementedError:
             rec.c('python_evaluator_not_accepting')
             continue
-        except (BiogemeError, ArithmeticError, TypeError, ValueError, KeyError) as e:
+        except Exception as e:
             viol(f'python-evaluator-{m}-raises-{type(e).__name__}', f'{m}.get_value() raised {type(e).__name__}: {e}', row=k)
             continue
         P = {a: np.array(v) for a, v in P.items()}
